@@ -55,6 +55,8 @@ def _judge(scn, out, layer, rec):
     rec.cls("pipe_" + scn["bhe"]["pipe"]["type"])
     rec.cls("flow_" + scn["flow_type"])
     rec.cls("design_checked")
+    if scn["min_eft"] == 0.0:
+        rec.cls("min_limit_exactly_0C")
     rec.sample({"method": scn["method"], "pipe": scn["bhe"]["pipe"]["type"], "flow_type": scn["flow_type"], "N": len(out.coords),
                 "H": out.H, "max_eft": mx, "min_eft": mn, "limits": [scn["min_eft"], scn["max_eft"]], "loads": scn["loads"],
                 "months": scn["months"]})
